@@ -96,6 +96,22 @@ def install_dom(eng, rec):
         old = mp.data.get(k); nd = dict(mp.data); nd[k] = a[2]; e.write_ref(st, a[0], StrMap(nd)); rec.setdefault('inserts', []).append(k)
         return one(st, NONE() if old is None else Some(old))
     M(r'^std::collections::HashMap::<std::string::String, .*>::insert$', insert)
+    def entry(e, st, fr, f, a, m):
+        mp = D(st, a[0]); k = a[1].s if isinstance(a[1], StrV) else D(st, a[1]).s
+        h = Opaque('mapentry', k, a[0])
+        return one(st, Enum(0 if k in mp.data else 1, [h], 'Entry'))      # std: enum Entry { Occupied(..), Vacant(..) }
+    M(r'^std::collections::HashMap::<std::string::String, .*>::entry$', entry)
+    def occ_get(e, st, fr, f, a, m):
+        h = D(st, a[0]) if isinstance(a[0], RefV) else a[0]; mp = D(st, h.data)
+        cell = ('mapval', h.name); st.frames[0].locals[cell] = mp.data[h.name]
+        return one(st, RefV(0, cell, ()))
+    M(r'^std::collections::hash_map::OccupiedEntry::<.*>::get$', occ_get)
+    def vac_insert(e, st, fr, f, a, m):
+        h = D(st, a[0]) if isinstance(a[0], RefV) else a[0]; mp = D(st, h.data)
+        nd = dict(mp.data); nd[h.name] = a[1]; e.write_ref(st, h.data, StrMap(nd)); rec.setdefault('inserts', []).append(h.name)
+        cell = ('mapval', h.name); st.frames[0].locals[cell] = a[1]
+        return one(st, RefV(0, cell, ()))
+    M(r'^std::collections::hash_map::VacantEntry::<.*>::insert$', vac_insert)
     def str_eq(e, st, fr, f, a, m):
         x, y = D(st, a[0]), D(st, a[1])
         if isinstance(x, StrV) and isinstance(y, StrV): return one(st, (x.s == y.s) != m.group(1).endswith('ne'))
